@@ -193,6 +193,24 @@ theorem civil_year_ge (z : Int) (h : 0 ≤ z) : 1970 ≤ (civilFromDays z).1 := 
     simp only [hm, e2, if_true, if_false] at hr
     omega
 
+/-- a day number from 1000-01-01 on has a year from 1000 on (four digits) -/
+theorem civil_year_ge1000 (z : Int) (h : -354285 ≤ z) : 1000 ≤ (civilFromDays z).1 := by
+  have hr := civil_roundtrip z
+  have hmd := civil_month_day z
+  generalize (civilFromDays z).1 = y at *
+  generalize (civilFromDays z).2.1 = m at *
+  generalize (civilFromDays z).2.2 = d at *
+  apply Classical.byContradiction
+  intro hy
+  simp only [daysFromCivil] at hr
+  by_cases hm : m ≤ 2
+  · have e2 : ¬ (m > 2) := by omega
+    simp only [hm, e2, if_true, if_false] at hr
+    omega
+  · have e2 : m > 2 := by omega
+    simp only [hm, e2, if_true, if_false] at hr
+    omega
+
 /-! ### digits -/
 
 theorem digit_facts : ∀ k : Nat, k < 10 →
@@ -314,14 +332,14 @@ theorem mon_ok (m : Int) (h0 : 0 ≤ m) (h1 : m ≤ 11) :
 /-! ### gmtime / timegm -/
 
 /-- field ranges of gmtime for instants in the four-digit-year range -/
-theorem gmtime_fields (t : Int) (h0 : 0 ≤ t) (h1 : t ≤ 253402300799) :
+theorem gmtime_fields (t : Int) (h0 : -30610224000 ≤ t) (h1 : t ≤ 253402300799) :
     let tm := (gmtime t).1
-    1970 ≤ tm.year ∧ tm.year ≤ 9999 ∧ 0 ≤ tm.mon ∧ tm.mon ≤ 11 ∧ 1 ≤ tm.mday ∧ tm.mday ≤ 31 ∧
+    1000 ≤ tm.year ∧ tm.year ≤ 9999 ∧ 0 ≤ tm.mon ∧ tm.mon ≤ 11 ∧ 1 ≤ tm.mday ∧ tm.mday ≤ 31 ∧
     0 ≤ tm.hour ∧ tm.hour ≤ 23 ∧ 0 ≤ tm.min ∧ tm.min ≤ 59 ∧ 0 ≤ tm.sec ∧ tm.sec ≤ 59 ∧
     0 ≤ (gmtime t).2 ∧ (gmtime t).2 ≤ 6 := by
   have hmd := civil_month_day (t / 86400)
   have hy1 := civil_year_le (t / 86400) (by omega)
-  have hy0 := civil_year_ge (t / 86400) (by omega)
+  have hy0 := civil_year_ge1000 (t / 86400) (by omega)
   simp only [gmtime]
   refine ⟨hy0, hy1, ?_, ?_, hmd.2.2.1, hmd.2.2.2, ?_, ?_, ?_, ?_, ?_, ?_, ?_, ?_⟩ <;> omega
 
@@ -334,7 +352,7 @@ theorem timegm_gmtime (t : Int) : timegm (gmtime t).1 = t := by
 
 /-! ### byte-level round trips -/
 
-theorem imf_roundtrip (now t : Int) (h0 : 0 ≤ t) (h1 : t ≤ 253402300799) :
+theorem imf_roundtrip (now t : Int) (h0 : -30610224000 ≤ t) (h1 : t ≤ 253402300799) :
     (renderIMF t).length = 29 ∧ dateToTime now (renderIMF t) = some t := by
   obtain ⟨hy0, hy1, hm0, hm1, hd0, hd1, hh0, hh1, hi0, hi1, hs0, hs1, hw0, hw1⟩ := gmtime_fields t h0 h1
   obtain ⟨w0, w1, w2, hw, hwd, -, -⟩ := wday_ok (gmtime t).2 hw0 hw1
@@ -355,7 +373,7 @@ theorem imf_roundtrip (now t : Int) (h0 : 0 ≤ t) (h1 : t ≤ 253402300799) :
     Bool.and_true, if_true, Option.map_some, hdv, hyv, hHv, hIv, hSv]
   exact congrArg some (timegm_gmtime t)
 
-theorem asctime_roundtrip (now t : Int) (h0 : 0 ≤ t) (h1 : t ≤ 253402300799) :
+theorem asctime_roundtrip (now t : Int) (h0 : -30610224000 ≤ t) (h1 : t ≤ 253402300799) :
     (renderAsctime t).length = 24 ∧ dateToTime now (renderAsctime t) = some t := by
   obtain ⟨hy0, hy1, hm0, hm1, hd0, hd1, hh0, hh1, hi0, hi1, hs0, hs1, hw0, hw1⟩ := gmtime_fields t h0 h1
   obtain ⟨w0, w1, w2, hw, hwd, -, -⟩ := wday_ok (gmtime t).2 hw0 hw1
@@ -396,7 +414,7 @@ theorem year850_ok (cur year : Int) (h : InWindow850 cur year) :
   simp only [year850]
   split <;> omega
 
-theorem rfc850_roundtrip (now t : Int) (h0 : 0 ≤ t) (h1 : t ≤ 253402300799)
+theorem rfc850_roundtrip (now t : Int) (h0 : -30610224000 ≤ t) (h1 : t ≤ 253402300799)
     (hwin : InWindow850 (yearOf now) (gmtime t).1.year) :
     (renderRFC850 t).length > 29 ∧ dateToTime now (renderRFC850 t) = some t := by
   obtain ⟨hy0, hy1, hm0, hm1, hd0, hd1, hh0, hh1, hi0, hi1, hs0, hs1, hw0, hw1⟩ := gmtime_fields t h0 h1
@@ -435,6 +453,15 @@ theorem rfc850_roundtrip (now t : Int) (h0 : 0 ≤ t) (h1 : t ≤ 253402300799)
     decide_true, Bool.and_true, if_true, Option.map_some, hdv, hyv, hHv, hIv, hSv,
     year850_ok _ _ hwin]
   exact congrArg some (timegm_gmtime t)
+
+theorem httpDateSz_fits : 29 < Extracted.httpDateSz := by decide
+
+/-- http_date_time_to_str() emits the IMF-fixdate unabridged for four-digit years -/
+theorem timeToStr_eq (t : Int) (h0 : -30610224000 ≤ t) (h1 : t ≤ 253402300799) :
+    timeToStr t = renderIMF t := by
+  have hl := (imf_roundtrip 0 t h0 h1).1
+  have := httpDateSz_fits
+  simp only [timeToStr, hl, this, if_true]
 
 end Date
 end LtVerif
